@@ -11,6 +11,16 @@
 //!         | 'Z'                              the unit view `()`
 //!         | 'I' hex ';' hex ';' node* '<'    Island::new(component, view).with_props(props)
 //!         | 'J' node* '<'                    IslandChildren::new(view)
+//!   only in `wview` ops — leptos components that hand `escape` through (two node lists are written one
+//!   after the other, each closed by `<`):
+//!         | 'G' bit ':' kids '<' fallback '<'     <Show when=bit fallback=…>kids</Show>
+//!         | 'Q' ':' kids '<' fallback '<'         <ErrorBoundary fallback=…>kids</ErrorBoundary>
+//!         | 'r' hex ';' | 'x' hex ';'             a child Ok(String) | Err(e) with e.to_string() = the string
+//!         | 'M'                                   (in a boundary's fallback) the error messages joined by ", "
+//!         | 'f' ('0'|'1') ':' T* '<'              <For each=rows …>: '0' `{s}`, '1' `<i>{s}</i>`
+//!         | 'u' bit ':' kids '<' fallback '<'     <Suspense> (bit 1: <Transition>)
+//!         | 'y' digit ':' kids '<'                Suspend::new(async { tick × digit; kids })
+//!         | 'w' digit ':' hex ';'                 <Await future=async { tick × digit; data } let:d><b>{d}</b>{d}</Await>
 //!   ity  := S String | s &'static str | a Arc<str> | w Cow<'static,str> | o Oco<'static,str> | c char | i i32
 //!         | q Option<String> | v Vec<String> | * AnyView (anything, built recursively)
 //!   attr := 'A' hex ';' hex ';'              .attr(name, String)
@@ -65,6 +75,16 @@ pub enum Node {
     Unit,
     Island { comp: String, props: String, kids: Vec<Node> },
     IslandChildren { kids: Vec<Node> },
+    // leptos wrapper components (`wview` only)
+    Show { cond: bool, kids: Vec<Node>, fb: Vec<Node> },
+    Boundary { kids: Vec<Node>, fb: Vec<Node> },
+    OkStr(String),
+    Err(String),
+    ErrMsgs,
+    ForEach { fam: u8, rows: Vec<String> },
+    Suspense { transition: bool, kids: Vec<Node>, fb: Vec<Node> },
+    Suspend { delay: u8, kids: Vec<Node> },
+    Await { delay: u8, data: String },
 }
 
 impl Node {
@@ -125,6 +145,23 @@ pub fn encode(nodes: &[Node]) -> String {
                 o.push_str(&encode(kids));
                 o.push('<');
             }
+            Node::Show { cond, kids, fb } => o.push_str(&format!("G{}:{}<{}<", *cond as u8, encode(kids), encode(fb))),
+            Node::Boundary { kids, fb } => o.push_str(&format!("Q:{}<{}<", encode(kids), encode(fb))),
+            Node::OkStr(s) => o.push_str(&format!("r{};", hx(s))),
+            Node::Err(s) => o.push_str(&format!("x{};", hx(s))),
+            Node::ErrMsgs => o.push('M'),
+            Node::ForEach { fam, rows } => {
+                o.push_str(&format!("f{fam}:"));
+                for r in rows {
+                    o.push_str(&format!("T{};", hx(r)));
+                }
+                o.push('<');
+            }
+            Node::Suspense { transition, kids, fb } => {
+                o.push_str(&format!("u{}:{}<{}<", *transition as u8, encode(kids), encode(fb)))
+            }
+            Node::Suspend { delay, kids } => o.push_str(&format!("y{delay}:{}<", encode(kids))),
+            Node::Await { delay, data } => o.push_str(&format!("w{delay}:{};", hx(data))),
             Node::Cont { kind, ity, kids } => {
                 o.push(*kind);
                 o.push(*ity);
@@ -237,6 +274,58 @@ impl<'a> D<'a> {
                 b'J' => {
                     let kids = self.nodes(false)?;
                     out.push(Node::IslandChildren { kids });
+                }
+                b'G' | b'u' => {
+                    let flag = self.bit()?;
+                    if *self.s.get(self.i)? != b':' {
+                        return None;
+                    }
+                    self.i += 1;
+                    let kids = self.nodes(false)?;
+                    let fb = self.nodes(false)?;
+                    out.push(if b == b'G' {
+                        Node::Show { cond: flag, kids, fb }
+                    } else {
+                        Node::Suspense { transition: flag, kids, fb }
+                    });
+                }
+                b'Q' => {
+                    if *self.s.get(self.i)? != b':' {
+                        return None;
+                    }
+                    self.i += 1;
+                    let kids = self.nodes(false)?;
+                    let fb = self.nodes(false)?;
+                    out.push(Node::Boundary { kids, fb });
+                }
+                b'r' => out.push(Node::OkStr(self.hex()?)),
+                b'x' => out.push(Node::Err(self.hex()?)),
+                b'M' => out.push(Node::ErrMsgs),
+                b'f' | b'y' | b'w' => {
+                    let d = *self.s.get(self.i)?;
+                    if !d.is_ascii_digit() || *self.s.get(self.i + 1)? != b':' {
+                        return None;
+                    }
+                    self.i += 2;
+                    let d = d - b'0';
+                    match b {
+                        b'f' => {
+                            if d > 1 {
+                                return None;
+                            }
+                            let rows: Option<Vec<String>> = self
+                                .nodes(false)?
+                                .into_iter()
+                                .map(|n| if let Node::Text { s, .. } = n { Some(s) } else { None })
+                                .collect();
+                            out.push(Node::ForEach { fam: d, rows: rows? });
+                        }
+                        b'y' => {
+                            let kids = self.nodes(false)?;
+                            out.push(Node::Suspend { delay: d, kids });
+                        }
+                        _ => out.push(Node::Await { delay: d, data: self.hex()? }),
+                    }
                 }
                 k if CONT_KINDS.as_bytes().contains(&k) => {
                     let ity = *self.s.get(self.i)? as char;
@@ -422,6 +511,16 @@ fn exp(nodes: &[Node], prev_text: &mut bool, out: &mut Vec<Tree>) {
                 exp(kids, prev_text, &mut inner);
                 out.push(Tree::Elem { tag: "leptos-children".into(), attrs: vec![], kids: inner });
             }
+            // wrapper components are replaced by what they show (`shown`) before this point
+            Node::Show { .. }
+            | Node::Boundary { .. }
+            | Node::OkStr(_)
+            | Node::Err(_)
+            | Node::ErrMsgs
+            | Node::ForEach { .. }
+            | Node::Suspense { .. }
+            | Node::Suspend { .. }
+            | Node::Await { .. } => {}
             Node::Cont { kind, kids, .. } => match kind {
                 // `None` is a placeholder comment, a `Vec` ends with a marker comment
                 'N' => {
@@ -473,4 +572,121 @@ pub fn expected(nodes: &[Node]) -> Vec<Tree> {
     let mut prev = false;
     exp(nodes, &mut prev, &mut out);
     out
+}
+
+pub fn has_wrappers(nodes: &[Node]) -> bool {
+    nodes.iter().any(|n| match n {
+        Node::Elem { kids, .. } | Node::Cont { kids, .. } | Node::Island { kids, .. } | Node::IslandChildren { kids } => {
+            has_wrappers(kids)
+        }
+        Node::Text { .. } | Node::Prim { .. } | Node::Unit => false,
+        _ => true,
+    })
+}
+
+fn errs_of(nodes: &[Node], out: &mut Vec<String>) {
+    for n in nodes {
+        match n {
+            Node::Err(m) => out.push(m.clone()),
+            Node::Elem { kids, .. } | Node::Cont { kids, .. } | Node::Suspend { kids, .. } => errs_of(kids, out),
+            Node::Show { cond, kids, fb } => errs_of(if *cond { kids } else { fb }, out),
+            Node::Suspense { kids, .. } => errs_of(kids, out),
+            _ => {}
+        }
+    }
+}
+
+/// what the wrapper components are meant to show: the chosen branch, the fallback of a boundary whose
+/// children threw (with the messages), the rows, and — `settled` — the resolved children of a
+/// `<Suspense>` / the awaited data, otherwise the `<Suspense>` fallback / nothing
+pub fn shown(nodes: &[Node], settled: bool, msgs: &str) -> Vec<Node> {
+    let seq = |kids: Vec<Node>| Node::Cont { kind: 'W', ity: '*', kids };
+    let mut out = vec![];
+    for n in nodes {
+        match n {
+            Node::Elem { tag, attrs, kids } => {
+                out.push(Node::Elem { tag: tag.clone(), attrs: attrs.clone(), kids: shown(kids, settled, msgs) })
+            }
+            Node::Cont { kind, ity, kids } => out.push(Node::Cont { kind: *kind, ity: *ity, kids: shown(kids, settled, msgs) }),
+            Node::Show { cond, kids, fb } => out.push(seq(shown(if *cond { kids } else { fb }, settled, msgs))),
+            Node::Boundary { kids, fb } => {
+                let mut es = vec![];
+                errs_of(kids, &mut es);
+                if es.is_empty() {
+                    out.push(seq(shown(kids, settled, msgs)))
+                } else {
+                    out.push(seq(shown(fb, settled, &es.join(", "))))
+                }
+            }
+            Node::OkStr(s) => out.push(Node::text(s)),
+            Node::Err(_) => out.push(Node::Unit),
+            Node::ErrMsgs => out.push(Node::text(msgs)),
+            Node::ForEach { fam, rows } => out.push(Node::Cont {
+                kind: 'V',
+                ity: '*',
+                kids: rows
+                    .iter()
+                    .map(|r| {
+                        if *fam == 0 {
+                            Node::text(r)
+                        } else {
+                            Node::Elem { tag: "i".into(), attrs: vec![], kids: vec![Node::text(r)] }
+                        }
+                    })
+                    .collect(),
+            }),
+            Node::Suspense { kids, fb, .. } => out.push(seq(shown(if settled { kids } else { fb }, settled, msgs))),
+            Node::Suspend { kids, .. } => out.push(seq(shown(kids, settled, msgs))),
+            Node::Await { data, .. } => {
+                if settled {
+                    out.push(Node::Elem { tag: "b".into(), attrs: vec![], kids: vec![Node::text(data)] });
+                    out.push(Node::text(data));
+                } else {
+                    out.push(Node::Unit)
+                }
+            }
+            other => out.push(other.clone()),
+        }
+    }
+    out
+}
+
+/// a document modulo sibling markers: comments dropped, adjacent text merged
+pub fn norm(ts: &[Tree]) -> Vec<Tree> {
+    let mut out: Vec<Tree> = vec![];
+    for t in ts {
+        match t {
+            Tree::Comment(_) => {}
+            Tree::Text(s) => {
+                if let Some(Tree::Text(prev)) = out.last_mut() {
+                    prev.push_str(s);
+                } else {
+                    out.push(Tree::Text(s.clone()));
+                }
+            }
+            Tree::Elem { tag, attrs, kids } => out.push(Tree::Elem { tag: tag.clone(), attrs: attrs.clone(), kids: norm(kids) }),
+        }
+    }
+    out
+}
+
+/// canonical text of a document (same format as `canon` in lean/Driver/C06.lean)
+pub fn canon(ts: &[Tree]) -> String {
+    let mut o = String::new();
+    for t in ts {
+        match t {
+            Tree::Text(s) => o.push_str(&format!("T{};", hx(s))),
+            Tree::Comment(s) => o.push_str(&format!("C{};", hx(s))),
+            Tree::Elem { tag, attrs, kids } => {
+                o.push_str(&format!("E{};", hx(tag)));
+                for (n, v) in attrs {
+                    o.push_str(&format!("A{}={};", hx(n), hx(v)));
+                }
+                o.push('>');
+                o.push_str(&canon(kids));
+                o.push('<');
+            }
+        }
+    }
+    o
 }
